@@ -115,6 +115,10 @@ structure State where
   hintFid : Nat := 0
   writeOff : Nat := 0
   actualSize : Nat := 0
+  /-- `db.ActiveFile` is a file that `Merge` has removed from the directory (it found nothing to
+  rewrite): records are written into the unlinked file and never show in `files`; a file of the same
+  name re-created by a key-only read is a different file. Cleared when a new file becomes active. -/
+  activeUnlinked : Bool := false
   kv : Assoc (Assoc Idx) := []
   lists : Assoc ListDS.St := []
   sets : Assoc SetDS.St := []
@@ -260,7 +264,7 @@ def applyOther (s : State) (r : Rec) (atCommit : Bool) : State × Outcome Unit :
 /-- `rotateActiveFile` (RAM modes): next file id, fresh offsets. -/
 def rotate (s : State) : State :=
   let nf := s.activeFid + 1
-  { s with activeFid := nf, hintFid := nf, writeOff := 0, actualSize := 0, files := fileEnsure s.files nf }
+  { s with activeFid := nf, hintFid := nf, writeOff := 0, actualSize := 0, files := fileEnsure s.files nf, activeUnlinked := false }
 
 def preRotate (s : State) (r : Rec) : State := if s.actualSize + r.size > s.opt.seg then rotate s else s
 
@@ -268,7 +272,7 @@ def preRotate (s : State) (r : Rec) : State := if s.actualSize + r.size > s.opt.
 def markLast (r : Rec) (last : Bool) : Rec := if last then { r with status := 1 } else r
 
 def appendRec (s : State) (r : Rec) : State :=
-  { s with files := fileAppend s.files s.activeFid s.writeOff r,
+  { s with files := if s.activeUnlinked then s.files else fileAppend s.files s.activeFid s.writeOff r,
            actualSize := s.actualSize + r.size, writeOff := s.writeOff + r.size }
 
 def noteCommitted (s : State) (id : Nat) : State :=
@@ -423,5 +427,49 @@ def prefixScan (s : State) (b pre : Bytes) (off lim : Int) (now : Nat) (mt : Byt
   | some m =>
     let (recs, _) := prefixWalk m pre off lim mt
     if recs.isEmpty then .err else nonEmptyOrErr (wrapper s recs lim now)
+
+
+/-! ### key-only mode: a read re-creates a missing data file
+
+`NewDataFile` opens with `O_CREATE` and truncates to the segment size: reading the value of an index
+record whose file is not in the directory (only possible after a `Merge` removed the active file)
+leaves an empty file of that name behind. The reads stay pure; the driver applies `afterRead` with the
+records the read fetched. -/
+
+/-- the index records `wrapper` reads back, in order (a failing read is the last one) -/
+def wrapperFetched (s : State) (recs : List Idx) (limit : Int) (now : Nat) (n : Nat := 0) : List Idx :=
+  match recs with
+  | [] => []
+  | i :: rest =>
+    if dead i.r now then wrapperFetched s rest limit now n
+    else if (limit > 0 ∧ (n : Int) < limit) ∨ limit = -1 then
+      match fetch s i with
+      | .ok _ => i :: wrapperFetched s rest limit now (n + 1)
+      | _ => [i]
+    else wrapperFetched s rest limit now n
+
+def getFetched (s : State) (b k : Bytes) (now : Nat) : List Idx :=
+  match (bucketIdx s b).bind (aget? · k) with
+  | none => []
+  | some i => if !s.committed.contains i.r.txid || dead i.r now then [] else [i]
+
+def getAllFetched (s : State) (b : Bytes) (now : Nat) : List Idx :=
+  match bucketIdx s b with
+  | none => []
+  | some m => wrapperFetched s (m.map (·.2)) (-1) now
+
+def rangeFetched (s : State) (b st en : Bytes) (now : Nat) : List Idx :=
+  match bucketIdx s b with
+  | none => []
+  | some m => if bcmp st en == .gt then [] else wrapperFetched s ((m.filter fun p => ble st p.1 && ble p.1 en).map (·.2)) (-1) now
+
+def prefixFetched (s : State) (b pre : Bytes) (off lim : Int) (now : Nat) (mt : Bytes → Bool := fun _ => true) : List Idx :=
+  match bucketIdx s b with
+  | none => []
+  | some m => wrapperFetched s (prefixWalk m pre off lim mt).1 lim now
+
+/-- the directory after a read that fetched `idxs` -/
+def afterRead (s : State) (idxs : List Idx) : State :=
+  if s.opt.mode == 0 then s else { s with files := idxs.foldl (fun fs i => fileEnsure fs i.fid) s.files }
 
 end Nuts.Model.DB
